@@ -41,7 +41,7 @@ Definition is_space (b : N) : bool := (b =? 9) || (b =? 32) || (b =? 10) || (b =
 Definition cnormal (bwf : bool) (b : N) : cstate * list N :=
   if b =? 92 then (if url_clean then (mkc bwf CNormal, []) else (mkc bwf CBackslash, []))
   else if is_space b then (if bwf then (mkc true CNormal, []) else (mkc true CNormal, [32]))
-  else if b =? 38 then (if url_clean then (mkc bwf (CAmp 0), [38]) else (mkc bwf CNormal, [38]))
+  else if b =? 38 then (if url_clean then (mkc false (CAmp 0), [38]) else (mkc false CNormal, [38]))
   else (mkc false CNormal, cdefault b).
 
 Definition amp_char (k : N) : N := match k with 0 => 97 | 1 => 109 | 2 => 112 | _ => 59 end.   (* a m p ; *)
